@@ -607,9 +607,10 @@ static std::string judgeDiff(Ctx& c, const Solid& X, const Solid& Y, const Manif
 int main(int argc, char** argv) {
   Runner R("C16", argc, argv);
   const bool thorough = R.a.thorough();
-  // --asan-subset (the ASan/UBSan run): only the identity and the rotated frame, 27-point multisets
-  // cut at 4 points, no 2^18-subset phases, coarser Minkowski sample grid.  Phase names and indices
-  // are unchanged, so a replay with the same flag reproduces a case.
+  // --asan-subset (the ASan/UBSan run; every phase costs ~30 s of sanitizer start-up on 8 workers
+  // here, so few phases): identity and rotated frame only, 27-point multisets cut at 4 points,
+  // 12-point multisets of 5, rotated boxes, seeds, pairs, Minkowski on a coarser sample grid.
+  // Phase names and indices are unchanged, so a replay with the same flag reproduces a case.
   bool asanSubset = false;
   for (int i = 1; i < argc; ++i) asanSubset |= !strcmp(argv[i], "--asan-subset");
   std::vector<const char*> HC = {"hulls", "rank3", "rank_lt3", "rank3_ge5distinct", "degenerate_tris", "violations_not_listed",
@@ -674,7 +675,7 @@ int main(int argc, char** argv) {
   // ---- (a1') every multiset of 5..6 (thorough: 7) points of the 12-point sub-lattice {0,1,2}x{0,1}x{0,1}
   //      (collinear triples along x, many coplanar quadruples), sorted and reversed, in every frame: the
   //      part of (a1) that is small enough for the sanitizer run
-  for (int k = 5; k <= (thorough ? 7 : 6); ++k) {
+  for (int k = 5; k <= (asanSubset ? 5 : thorough ? 7 : 6); ++k) {
     for (auto& fr : frames) {
       const Frame& F = *fr.second;
       uint64_t nm = binom(12 + k - 1, k);
@@ -705,7 +706,7 @@ int main(int argc, char** argv) {
   }
 
   // ---- (a3) full lattice boxes {0..a}x{0..b}x{0..c}, a,b,c <= 5, in 8 deterministic orders, exact and rotated
-  for (int fr = 0; fr < 2; ++fr) {
+  for (int fr = asanSubset ? 1 : 0; fr < 2; ++fr) {
     const Frame& F = fr ? rotf : ident;
     const int nOrd = 8;
     R.phase(std::string("hull-boxes") + (fr ? "-rot" : ""), 6 * 6 * 6 * nOrd, 8, [&](uint64_t idx, Ctx& c) {
